@@ -12,6 +12,38 @@ import (
 )
 
 func (ex *Exec) execCall(fr *Frame, st *State, c *ssa.CallCommon, instr *ssa.Call, pos token.Pos) []Val {
+	rs := ex.execCall1(fr, st, c, instr, pos)
+	// call-site assumptions of the function under proof
+	if top := ex.ld.contractFor(ex.top); top != nil && len(top.AssumeAfter) > 0 && fr.parent == nil {
+		key := callKey(c)
+		for _, ca := range top.AssumeAfter {
+			if ca.Key != key {
+				continue
+			}
+			env := ex.envAt(fr, st, fr.curBlock)
+			env.results = rs
+			ex.assume(st, ex.evalBool(env, ca.Cl.E))
+			ex.trustedUsed["assumed after call "+key+": "+ca.Cl.Src] = true
+		}
+	}
+	return rs
+}
+
+// callKey names a call site for contracts: recv.Method for methods, Func otherwise.
+func callKey(c *ssa.CallCommon) string {
+	if c.IsInvoke() {
+		return sourceName(c.Value) + "." + c.Method.Name()
+	}
+	if f := c.StaticCallee(); f != nil {
+		if f.Signature.Recv() != nil && len(c.Args) > 0 {
+			return sourceName(c.Args[0]) + "." + f.Name()
+		}
+		return f.Name()
+	}
+	return sourceName(c.Value)
+}
+
+func (ex *Exec) execCall1(fr *Frame, st *State, c *ssa.CallCommon, instr *ssa.Call, pos token.Pos) []Val {
 	var args []Val
 	for _, a := range c.Args {
 		args = append(args, ex.val(fr, a))
@@ -343,6 +375,10 @@ func (ex *Exec) havocTarget(env *Env, st *State, m *ModTarget) {
 			}
 			st.set(k, FreshVar("hv_"+k, s))
 		}
+	case ModAllOfType:
+		for _, k := range ex.typeKeys(env, m) {
+			st.set(k.key, FreshVar("hv_"+k.key, k.sort))
+		}
 	case ModField:
 		base := ex.eval(env, m.Base)
 		loc := ex.fieldLoc(base, m.Field)
@@ -606,4 +642,36 @@ func mentionsCallLog(e Expr) bool {
 	}
 	rec(e)
 	return found
+}
+
+type keySort struct {
+	key  string
+	sort *Sort
+}
+
+// typeKeys lists the heap keys of `all T.f` / `all T.*`.
+func (ex *Exec) typeKeys(env *Env, m *ModTarget) []keySort {
+	t := ex.ld.resolveType(env.pkg, m.TypeName)
+	lo := layoutOf(t)
+	var out []keySort
+	add := func(j int) {
+		lf := lo.Leaves[j]
+		out = append(out, keySort{heapKey(t, j, lf), ArrS(IntS, lf.S)})
+	}
+	if m.Field == "*" {
+		for j := range lo.Leaves {
+			add(j)
+		}
+		return out
+	}
+	for _, f := range lo.Fields {
+		if f.Name == m.Field {
+			for j := f.Off; j < f.Off+f.N; j++ {
+				add(j)
+			}
+			return out
+		}
+	}
+	sfail("no field %s in %s", m.Field, m.TypeName)
+	return nil
 }
